@@ -91,6 +91,7 @@ impl<N: Ord + Clone, D> Node<N, D> {
         &&& forall|a: N, b: N| le(a, b) || le(b, a)
         &&& forall|a: N| le(a, a)
         &&& forall|a: N, b: N| lt(a, b) <==> !le(b, a)
+        &&& forall|a: N, b: N| (#[trigger] a.partial_cmp_spec(&b) == Some(core::cmp::Ordering::Greater)) <==> lt(b, a)
     }
 
     fn update_max(&mut self)
@@ -488,6 +489,179 @@ fn swap_interval_data<N: Ord + Clone, D>(node_1: &mut Node<N, D>, node_2: &mut N
 {
     mem::swap(&mut node_1.value, &mut node_2.value);
     mem::swap(&mut node_1.interval, &mut node_2.interval);
+}
+
+// ------------------------------------------------------------------ iterator
+pub open spec fn overlaps<N: Ord>(qs: N, qe: N, s: N, e: N) -> bool {
+    lt(qs, qe) && lt(s, e) && lt(s, qe) && lt(qs, e)
+}
+
+pub struct Entry<'a, N: Ord + Clone, D> {
+    data: &'a D,
+    interval: &'a Interval<N>,
+}
+
+pub struct IntervalTreeIterator<'a, N: Ord + Clone, D> {
+    nodes: Vec<&'a Node<N, D>>,
+    interval: Interval<N>,
+}
+
+impl<N: Ord + Clone, D> Node<N, D> {
+    spec fn ov(m: Multiset<(N, N, D)>, qs: N, qe: N) -> Multiset<(N, N, D)> {
+        m.filter(|e: (N, N, D)| overlaps(qs, qe, e.0, e.1))
+    }
+    spec fn pending(nodes: Seq<&Node<N, D>>, qs: N, qe: N) -> Multiset<(N, N, D)> decreases nodes.len() {
+        if nodes.len() == 0 { Multiset::empty() } else { Self::pending(nodes.drop_last(), qs, qe).add(Self::ov(nodes.last().entries(), qs, qe)) }
+    }
+    spec fn total(nodes: Seq<&Node<N, D>>) -> nat decreases nodes.len() {
+        if nodes.len() == 0 { 0 } else { Self::total(nodes.drop_last()) + nodes.last().size() }
+    }
+    spec fn all_wf(nodes: Seq<&Node<N, D>>) -> bool { forall|i: int| 0 <= i < nodes.len() ==> (#[trigger] nodes[i]).wf() }
+
+    proof fn lemma_push(nodes: Seq<&Node<N, D>>, n: &Node<N, D>, qs: N, qe: N)
+        ensures Self::pending(nodes.push(n), qs, qe) == Self::pending(nodes, qs, qe).add(Self::ov(n.entries(), qs, qe)),
+            Self::total(nodes.push(n)) == Self::total(nodes) + n.size(),
+            Self::all_wf(nodes) && n.wf() ==> Self::all_wf(nodes.push(n)),
+    {
+        assert(nodes.push(n).drop_last() =~= nodes);
+        assert(nodes.push(n).last() == n);
+    }
+    proof fn lemma_ov_split(&self, qs: N, qe: N)
+        ensures ({ let me = (self.interval.range().start, self.interval.range().end, self.value);
+            Self::ov(self.entries(), qs, qe) == Self::ov(Self::opt_entries(self.left), qs, qe)
+                .add(if overlaps(qs, qe, me.0, me.1) { Multiset::empty().insert(me) } else { Multiset::empty() })
+                .add(Self::ov(Self::opt_entries(self.right), qs, qe)) })
+    {
+        let me = (self.interval.range().start, self.interval.range().end, self.value);
+        let f = |e: (N, N, D)| overlaps(qs, qe, e.0, e.1);
+        let l = Self::opt_entries(self.left); let r = Self::opt_entries(self.right);
+        assert(self.entries() == l.insert(me).add(r));
+        assert(l.insert(me).add(r).filter(f) =~= l.insert(me).filter(f).add(r.filter(f)));
+        assert(l.insert(me).filter(f) =~= if f(me) { l.filter(f).insert(me) } else { l.filter(f) });
+        assert(Self::ov(self.entries(), qs, qe) =~= Self::ov(l, qs, qe)
+                .add(if overlaps(qs, qe, me.0, me.1) { Multiset::empty().insert(me) } else { Multiset::empty() })
+                .add(Self::ov(r, qs, qe)));
+    }
+    /// nothing in a subtree overlaps when the query starts at or after the subtree's max end
+    proof fn lemma_prune_max(m: Multiset<(N, N, D)>, max: N, qs: N, qe: N)
+        requires Self::total_order(), Self::ends_le(m, max), !lt(qs, max)
+        ensures Self::ov(m, qs, qe) == Multiset::<(N, N, D)>::empty()
+    {
+        let f = |e: (N, N, D)| overlaps(qs, qe, e.0, e.1);
+        assert forall|e: (N, N, D)| m.filter(f).count(e) == 0 by {
+            if m.count(e) > 0 { assert(le(e.1, max)); assert(le(max, qs)); assert(le(e.1, qs)); assert(!lt(qs, e.1)); }
+        }
+        assert(m.filter(f) =~= Multiset::<(N, N, D)>::empty());
+    }
+    /// nothing starting at or after `s` overlaps when the query ends at or before `s`
+    proof fn lemma_prune_start(m: Multiset<(N, N, D)>, s: N, qs: N, qe: N)
+        requires Self::total_order(), Self::starts_gt(m, s), !lt(s, qe)
+        ensures Self::ov(m, qs, qe) == Multiset::<(N, N, D)>::empty()
+    {
+        let f = |e: (N, N, D)| overlaps(qs, qe, e.0, e.1);
+        assert forall|e: (N, N, D)| m.filter(f).count(e) == 0 by {
+            if m.count(e) > 0 { assert(le(s, e.0)); assert(le(qe, s)); assert(le(qe, e.0)); assert(!lt(e.0, qe)); }
+        }
+        assert(m.filter(f) =~= Multiset::<(N, N, D)>::empty());
+    }
+}
+
+impl<'a, N: Ord + Clone + 'a, D: 'a> IntervalTreeIterator<'a, N, D> {
+    spec fn inv(&self) -> bool { Node::<N, D>::all_wf(self.nodes@) && Node::<N, D>::total_order() }
+    spec fn pend(&self) -> Multiset<(N, N, D)> { Node::<N, D>::pending(self.nodes@, self.interval.range().start, self.interval.range().end) }
+
+    fn next(&mut self) -> (r: Option<Entry<'a, N, D>>)
+        requires old(self).inv()
+        ensures final(self).inv(), final(self).interval == old(self).interval,
+            match r {
+                Some(en) => {
+                    let e = (en.interval.range().start, en.interval.range().end, *en.data);
+                    overlaps(old(self).interval.range().start, old(self).interval.range().end, e.0, e.1)
+                    && old(self).pend() == final(self).pend().insert(e)
+                }
+                None => old(self).pend() == Multiset::<(N, N, D)>::empty() && final(self).pend() == Multiset::<(N, N, D)>::empty(),
+            }
+    {
+        let ghost qs = self.interval.range().start; let ghost qe = self.interval.range().end;
+        loop
+            invariant self.inv(), self.interval == old(self).interval, self.pend() == old(self).pend(),
+                qs == self.interval.range().start, qe == self.interval.range().end,
+            decreases Node::<N, D>::total(self.nodes@)
+        {
+            let ghost before = self.nodes@;
+            let candidate = match self.nodes.pop() {
+                None => return None,
+                Some(node) => node,
+            };
+            let ghost base = self.nodes@;
+            let ghost me = (candidate.interval.range().start, candidate.interval.range().end, candidate.value);
+            let ghost c1 = lt(qs, candidate.max);
+            let ghost c2 = lt(me.0, qe);
+            let ghost el = Node::<N, D>::opt_entries(candidate.left); let ghost er = Node::<N, D>::opt_entries(candidate.right);
+            proof {
+                assert(before.drop_last() =~= base);
+                assert(before.last() == candidate);
+                assert(candidate.wf());
+                candidate.lemma_ov_split(qs, qe);
+                assert(Node::<N, D>::pending(before, qs, qe) == Node::<N, D>::pending(base, qs, qe).add(Node::<N, D>::ov(candidate.entries(), qs, qe)));
+                assert(Node::<N, D>::total(before) == Node::<N, D>::total(base) + candidate.size());
+                assert(candidate.size() == 1 + Node::<N, D>::opt_size(candidate.left) + Node::<N, D>::opt_size(candidate.right));
+                if candidate.left is Some { Node::<N, D>::lemma_push(base, &*candidate.left->0, qs, qe); }
+                let s1 = if candidate.left is Some { base.push(&*candidate.left->0) } else { base };
+                if candidate.right is Some { Node::<N, D>::lemma_push(s1, &*candidate.right->0, qs, qe); }
+                if !c1 { Node::<N, D>::lemma_prune_max(candidate.entries(), candidate.max, qs, qe); }
+                if !c2 { Node::<N, D>::lemma_prune_start(er, me.0, qs, qe); }
+                assert(Node::<N, D>::ov(Multiset::<(N, N, D)>::empty(), qs, qe) =~= Multiset::<(N, N, D)>::empty());
+            }
+
+            // stop traversal if the query interval is beyond the current node and all children
+            if self.interval.start < candidate.max {
+                if let Some(ref left) = candidate.left {
+                    self.nodes.push(left);
+                }
+
+                // don't traverse right if the query interval is completely before the current
+                // interval
+                if self.interval.end > candidate.interval.start {
+                    if let Some(ref right) = candidate.right {
+                        self.nodes.push(right);
+                    }
+
+                    // overlap is only possible if both tests pass
+                    if intersect::<N, D>(&self.interval, &candidate.interval) {
+                        proof {
+                            let s1 = if candidate.left is Some { base.push(&*candidate.left->0) } else { base };
+                            let s2 = if candidate.right is Some { s1.push(&*candidate.right->0) } else { s1 };
+                            assert(self.nodes@ =~= s2);
+                            assert(old(self).pend() =~= self.pend().insert(me));
+                        }
+                        return Some(Entry {
+                            data: &candidate.value,
+                            interval: &candidate.interval,
+                        });
+                    }
+                }
+            }
+            proof {
+                let s1 = if candidate.left is Some { base.push(&*candidate.left->0) } else { base };
+                let s2 = if candidate.right is Some { s1.push(&*candidate.right->0) } else { s1 };
+                if c1 {
+                    if c2 { assert(self.nodes@ =~= s2); } else { assert(self.nodes@ =~= s1); }
+                } else { assert(self.nodes@ =~= base); }
+                assert(self.pend() =~= old(self).pend());
+            }
+        }
+    }
+}
+
+fn intersect<N: Ord + Clone, D>(range_1: &Interval<N>, range_2: &Interval<N>) -> (r: bool)
+    requires Node::<N, D>::total_order()
+    ensures r == overlaps(range_1.range().start, range_1.range().end, range_2.range().start, range_2.range().end)
+{
+    range_1.start < range_1.end
+        && range_2.start < range_2.end
+        && range_1.end > range_2.start
+        && range_1.start < range_2.end
 }
 }
 fn main() {}
